@@ -48,6 +48,7 @@ CONSTANTS Id,          \* heap cells
           LogExtra,    \* "always": merge_molecule appends its correspondence to every log entry it merges (tree as found)
                        \* "blocks": only when the newcomer is a Block, whose entries refer to atom NAMES (demanded)
           CitShared,   \* TRUE: subgraph() / to_molecule() hand their result the citation SET OBJECT of the source (as found)
+          SysFF,       \* name of the force field of the System ("" for none): what MergeChains gives its new molecule
           LogPurge     \* TRUE: removing an atom drops the log emissions that refer to it (demanded); FALSE as found
 
 NULL == -1
@@ -295,10 +296,10 @@ FoldMerge(M, heap, ids, o) ==
 TagsOf(M) == {M.nodes[i].tag : i \in Idx(M)}
 Selected(heap, ids, chains) == SelectSeq(ids, LAMBDA i : TagsOf(heap[i]) \subseteq chains)
 AllChains(heap, ids) == UNION {TagsOf(heap[ids[j]]) : j \in DOMAIN ids}
-\* the new molecule: force field of the system (none in this model), nrexcl of the first merged molecule, no meta
+\* the new molecule: force field of the system, nrexcl of the first merged molecule, no meta
 MergedChains(heap, ids, chains) ==
   LET sel == Selected(heap, ids, chains) IN
-  FoldMerge([EmptyMol EXCEPT !.bk.nrexcl = IF sel = <<>> THEN NULL ELSE heap[sel[1]].bk.nrexcl], heap, sel, {})
+  FoldMerge([EmptyMol EXCEPT !.bk.nrexcl = IF sel = <<>> THEN NULL ELSE heap[sel[1]].bk.nrexcl, !.bk.ff = SysFF], heap, sel, {})
 \* the molecule list afterwards: the new molecule (cell d) where the first merged molecule was, the other merged ones gone
 RECURSIVE SysAfterChains(_, _, _, _)
 SysAfterChains(ids, sel, d, placed) ==
@@ -498,8 +499,9 @@ Bounded ==
 -----------------------------------------------------------------------------
 (* the property *)
 NoDanglingMol(M) ==
-  /\ \A e \in M.edges : e[1] \in KeysOf(M) /\ e[2] \in KeysOf(M)
-  /\ \A t \in Types : \A j \in DOMAIN M.inter[t] : RangeOf(M.inter[t][j].atoms) \subseteq KeysOf(M)
+  LET ks == KeysOf(M) IN
+  /\ \A e \in M.edges : e[1] \in ks /\ e[2] \in ks
+  /\ \A t \in Types : \A j \in DOMAIN M.inter[t] : RangeOf(M.inter[t][j].atoms) \subseteq ks
 NoDangling == \A m \in Id : NoDanglingMol(mols[m])
 
 UniqueKeys == \A m \in Id : \A i, j \in Idx(mols[m]) : i # j => mols[m].nodes[i].key # mols[m].nodes[j].key
@@ -517,13 +519,12 @@ PartsWellFormed == /\ UNION parts = Id /\ {} \notin parts
 Conserved(M, N, M2) ==
   /\ Len(M2.nodes) = Len(M.nodes) + Len(N.nodes)
   /\ \A i \in Idx(M) : M2.nodes[i] = M.nodes[i]
-  /\ \A i \in Idx(N) : M2.nodes[Len(M.nodes) + i].key \notin KeysOf(M)
-  /\ \A i, j \in Idx(M2) : i # j => M2.nodes[i].key # M2.nodes[j].key
-  /\ \E dr, dc \in 0..MaxResid :
-        /\ (M.nodes # <<>> => dr = NodeOf(M, MaxKeyOf(M)).resid /\ dc = NodeOf(M, MaxKeyOf(M)).cg)
-        /\ (M.nodes = <<>> => dr = 0 /\ dc = 0)
-        /\ \A i \in Idx(N) : LET x == M2.nodes[Len(M.nodes) + i] IN
-              x.resid = N.nodes[i].resid + dr /\ x.cg = N.nodes[i].cg + dc /\ x.tag = N.nodes[i].tag
+  /\ LET ks == KeysOf(M) IN \A i \in Idx(N) : M2.nodes[Len(M.nodes) + i].key \notin ks
+  /\ Cardinality(KeysOf(M2)) = Len(M2.nodes)
+  /\ LET dr == IF M.nodes = <<>> THEN 0 ELSE NodeOf(M, MaxKeyOf(M)).resid       \* of the receiver's last atom
+         dc == IF M.nodes = <<>> THEN 0 ELSE NodeOf(M, MaxKeyOf(M)).cg
+     IN \A i \in Idx(N) : LET x == M2.nodes[Len(M.nodes) + i] IN
+           x.resid = N.nodes[i].resid + dr /\ x.cg = N.nodes[i].cg + dc /\ x.tag = N.nodes[i].tag
   /\ \A t \in Types :
         /\ Len(M2.inter[t]) = Len(M.inter[t]) + Len(N.inter[t])
         /\ \A j \in DOMAIN M.inter[t] : M2.inter[t][j] = M.inter[t][j]
